@@ -1379,7 +1379,7 @@ def df_method(it, obj, name, args, kw):
 def ext_attr(it, modname, attr):
     full = f"{modname}.{attr}"
     consts = {"np.nan": None, "np.inf": INF, "math.inf": INF, "np.newaxis": None, "math.pi": Fr(355, 113), "np.pi": Fr(355, 113), "np.float64": _TypeProxy(float, lambda x=0.0: x),
-              "np.NaN": None, "sys.float_info.epsilon": Fr(1, 2 ** 52)}
+              "np.NaN": None, "sys.float_info.epsilon": Fr(1, 2 ** 52), "os.curdir": ".", "os.pardir": "..", "os.sep": "/", "os.path.sep": "/", "os.extsep": ".", "os.linesep": "\n"}
     if full in consts:
         return consts[full]
     return Module(full)
